@@ -619,6 +619,10 @@ func run(c *vm.Ctx) {
 	for i := 0; i < c.Scale(400, 8000); i++ {
 		checkStatic(c, str)
 	}
+	mer := c.Rand("map-elements")
+	for i := 0; i < c.Scale(2000, 40000); i++ {
+		checkMapElements(c, mer)
+	}
 	ar := c.Rand("awkward")
 	for i := 0; i < c.Scale(2000, 20000); i++ {
 		checkAwkward(c, ar)
